@@ -178,11 +178,20 @@ pub fn op_plan(args: &[&str]) -> String {
     let t = tree_of(args[0], args[1]);
     let ml: u8 = args[2].parse().unwrap();
     let rs = ranges_of(&parse_list(args[3]));
-    join_plan(
-        t.ranges_pre_order_chunks_iter_ref(&rs, ml)
-            .map(|c| chunk_str(&c))
-            .collect(),
-    )
+    // glue: accessors of the iterator and `without_ranges` (must agree with the items themselves)
+    let it = t.ranges_pre_order_chunks_iter_ref(&rs, ml);
+    if it.min_full_level() != ml || *it.tree() != t {
+        return "glue-mismatch:accessors".into();
+    }
+    let items: Vec<BaoChunk<&ChunkRangesRef>> = it.collect();
+    for c in &items {
+        let a = chunk_str(c);
+        let b = chunk_str0(&c.without_ranges());
+        if a.rsplit_once('/').unwrap().0 != b.rsplit_once('/').unwrap().0 {
+            return format!("glue-mismatch:without_ranges {a} {b}");
+        }
+    }
+    join_plan(items.iter().map(chunk_str).collect())
 }
 
 pub fn op_rplan(args: &[&str]) -> String {
